@@ -205,6 +205,15 @@ def check_case(case):
         return [], False, None, 1, 1
     vs = []
     axes = "+".join(f"{a}={c}" for a, c in sorted(case["carriers"].items())) or "span=tuple"
+    failed = isinstance(res, alpha.Raised) or (not isinstance(canon, alpha.Raised) and res != canon)
+    if failed and len(case["carriers"]) > 1 and not isinstance(canon, alpha.Raised):
+        # attribute a multi-carrier disagreement to the single carrier that already causes it, if any
+        for a, c in sorted(case["carriers"].items()):
+            single = call_with(name, cfg, logical, {a: c})
+            if single is not None and (isinstance(single, alpha.Raised) or single != canon):
+                if type(single) is type(res) and (not isinstance(single, alpha.Raised) or single.name == res.name):
+                    axes = f"{a}={c}"
+                    break
     if isinstance(canon, alpha.Raised):
         vs.append(V(f"{PROP}|{name}|canonical|symptom={canon!r}", f"{name} raised {canon.name} on canonical carriers: {canon.msg}", None, repr(canon)))
     elif isinstance(res, alpha.Raised):
